@@ -268,6 +268,19 @@ func (c *Ctx) enterLoopHead(st *State, fr *Frame, li *loopInfo, pred *ssa.BasicB
 			g := env.evalBool(cl.E)
 			c.oblige(st, fr, "inv-keep", fmt.Sprintf("loop%d", li.ord), cl.Label, pos+token.Pos(cl.Line)*0, g, cl.Props, cl.Src)
 		}
+		// `loop N continue E`: holds whenever the loop goes round again (proved at back edges only; it is neither
+		// required on entry nor assumed at the head)
+		if fr.fc != nil {
+			for _, cl := range fr.fc.Clauses {
+				if cl.Kind != "continue" || cl.Loop != li.ord {
+					continue
+				}
+				env := c.envFor(st, fr, fr.entry)
+				env.goal = true
+				g := env.evalBool(cl.E)
+				c.oblige(st, fr, "continue", fmt.Sprintf("loop%d", li.ord), cl.Label, pos, g, cl.Props, cl.Src)
+			}
+		}
 		if v0, ok := st.variant[li.head]; ok {
 			for i, cl := range decs {
 				env := c.envFor(st, fr, fr.entry)
